@@ -186,6 +186,7 @@ func run(c *rig.Ctx) {
 		if i%4 != 0 {
 			press()
 		}
+		dmaBurst := 0
 		var before, after [0x10000]byte
 		nw := int(c.N(5200, 40000))
 		sweep(m, &before)
@@ -243,6 +244,11 @@ func run(c *rig.Ctx) {
 				if r.Chance(1, 8) {
 					addr = 0xff30 + uint16(r.Intn(0x10))
 				}
+				if r.Chance(1, 10) {
+					// the timer registers while channels are about to expire: their side effects
+					// stay inside the timer
+					addr = r.Pick16([]uint16{0xff04, 0xff04, 0xff07, 0xff05})
+				}
 			default:
 				switch r.Intn(8) {
 				case 0, 1:
@@ -256,6 +262,11 @@ func run(c *rig.Ctx) {
 				default:
 					addr = r.U16()
 				}
+			}
+			if dmaBurst > 0 {
+				// stores to memory of every kind while the transfer is in flight
+				dmaBurst--
+				addr = r.Pick16([]uint16{0xc000 + uint16(r.Intn(0x2000)), 0xe000 + uint16(r.Intn(0x1e00)), 0x8000 + uint16(r.Intn(0x2000)), 0xa000 + uint16(r.Intn(0x2000)), 0xff80 + uint16(r.Intn(0x7f)), uint16(r.Intn(0x8000))})
 			}
 			val := r.U8()
 			switch r.Intn(6) {
@@ -298,6 +309,13 @@ func run(c *rig.Ctx) {
 				}
 			}
 			before = after
+			if addr == 0xff46 && k%2 == 0 {
+				// let the transfer get under way: the following stores happen while it runs
+				tick(2 + r.Intn(150))
+				sweep(m, &before)
+				dmaBurst = 6
+				c.Count("stores_following_a_dma_start", 1)
+			}
 			c.Count("writes_checked", 1)
 			if changed > 0 {
 				c.Count("writes_with_visible_effect", 1)
